@@ -382,9 +382,20 @@ def exc_classes():
         [UserCredits, UserSubscribe]
 
 
+class Detail:
+    """a non-text exception detail (a wrapped exception, an error object): only its str() is specified"""
+    def __init__(self, text):
+        self.text = text
+
+    def __str__(self):
+        return self.text
+
+
 def make_exc(cls, R, msg=None):
     from lightstreamer_adapter.interfaces import metadata as im
     msg = gen_text(R, allow_none=False) if msg is None else msg
+    if cls is not KeyError and isinstance(msg, str) and R.random() < 0.15:
+        msg = Detail(msg)              # `raise SomeError(e)`: the reply carries str(error) whatever the detail object is
     if issubclass(cls, im.ConflictingSessionError):
         return cls(R.choice([0, -1, -5, 7, 12345]), msg, gen_text(R, allow_none=False) or "S1", R.choice([None, "", gen_text(R)]))
     if issubclass(cls, im.CreditsError):
